@@ -1,0 +1,26 @@
+// Copyright © 2022-2026 Obol Labs Inc. Licensed under the terms of a Business Source License 1.1
+
+//go:build verif
+
+// Verification contracts (comments only; read by /verif/govc, never compiled into charon).
+package tblsconv
+
+// Byte-level conversions: accepted exactly at the type's length, and then byte-for-byte the input.
+//@ func PubkeyFromBytes
+//@ props C08
+//@ ensures (r1 == nil) <==> (len(data) == 48)
+//@ ensures r1 == nil ==> forall(i, 0, 48, r0[i] == data[i])
+
+//@ func PrivkeyFromBytes
+//@ props C08
+//@ ensures (r1 == nil) <==> (len(data) == 32)
+//@ ensures r1 == nil ==> forall(i, 0, 32, r0[i] == data[i])
+
+//@ func SignatureFromBytes
+//@ props C08
+//@ ensures (r1 == nil) <==> (len(data) == 96)
+//@ ensures r1 == nil ==> forall(i, 0, 96, r0[i] == data[i])
+
+//@ func SigToCore
+//@ props C08
+//@ ensures len(result) == 96 && forall(i, 0, 96, result[i] == sig[i])
